@@ -511,6 +511,7 @@ func (fr *Frame) copyOp(cc *ssa.CallCommon, args []Value, st *State, pc Term) Va
 		innerS := ArrSort(SInt, lf.Sort)
 		ni := u.c.Fresh("copyinner", innerS)
 		oldInner := Select(comp, d.Arr)
+		m.noteWrite(name, d.Arr)
 		if !u.preciseContent() {
 			u.c.Note("copy: destination contents abstracted (opt content=precise to model them)")
 			st.heap[name] = u.c.Def(name, Ite(Gt(n, IntLit(0)), Store(comp, d.Arr, ni), comp))
